@@ -248,6 +248,16 @@ Fixpoint re_eqb (a b : re) : bool :=
   | _, _ => false
   end.
 
+(* envoy.extensions.path.match.uri_template: "*" = one non-empty path segment, "**" = any
+   (possibly empty) rest incl. "/", anything else literal (the pchar restriction is not modelled) *)
+Fixpoint template_re (t : string) : re :=
+  match t with
+  | String "*" (String "*" rest) => RSeq (RStar RAny) (template_re rest)
+  | String "*" rest => RSeq (RPlus RNotSlash) (template_re rest)
+  | String a rest => RSeq (RLit (String a EmptyString)) (template_re rest)
+  | EmptyString => REps
+  end.
+
 (* ------------------------------------------------------------------ TARGET: matchers and RBAC AST *)
 
 (* envoy.type.matcher.v3.StringMatcher *)
@@ -394,7 +404,7 @@ Fixpoint eval_perm (p : perm) (r : request) : bool :=
   | PDestIP c => in_cidr c (r_dst_ip r)
   | PSNI m => eval_smatch m (r_sni r)
   | PMetadata f path v => eval_metadata f path v r
-  | PUriTemplate _ => false
+  | PUriTemplate t => match r_path r with Some x => re_match (template_re t) x | None => false end
   end.
 
 Definition peer_principal_key : string := "io.istio.peer_principal".
@@ -445,7 +455,8 @@ Record source := {
   s_request_principals : list string; s_not_request_principals : list string;
   s_namespaces : list string; s_not_namespaces : list string;
   s_ip_blocks : list string; s_not_ip_blocks : list string;
-  s_remote_ip_blocks : list string; s_not_remote_ip_blocks : list string
+  s_remote_ip_blocks : list string; s_not_remote_ip_blocks : list string;
+  s_service_accounts : list string; s_not_service_accounts : list string
 }.
 
 Record operation := {
@@ -462,7 +473,8 @@ Record rule := { from : list source; to : list operation; when : list condition 
 Inductive action := ALLOW | DENY | AUDIT.
 
 Record policy := {
-  p_id : N;             (* stands for namespace/name (unique) *)
+  p_id : N;             (* the policy is named "p<id>" (unique) *)
+  p_ns : string;        (* metadata.namespace: default namespace of serviceAccounts values *)
   p_action : action;
   p_dry_run : bool;     (* istio.io/dry-run: "true" *)
   p_rules : list rule
@@ -476,6 +488,7 @@ Inductive kind :=
 | KDestIP | KDestPort | KConnSNI                       (* permission side, from `when` *)
 | KHost | KPath | KMethod                              (* permission side, from `to` *)
 | KSrcIP | KRemoteIP | KSrcNamespace | KSrcPrincipal   (* principal side *)
+| KSrcSvcAccount (default_ns : string)                 (* srcServiceAccountGenerator{policyName}: carries the policy namespace *)
 | KReqHeader                                           (* principal side, HTTP only *)
 | KReqPrincipal | KReqAudiences | KReqPresenter | KReqClaim.   (* principal side, HTTP only, "extended" *)
 
@@ -496,6 +509,7 @@ Definition attr_src_ip := "source.ip".
 Definition attr_remote_ip := "remote.ip".
 Definition attr_src_namespace := "source.namespace".
 Definition attr_src_principal := "source.principal".
+Definition attr_src_service_account := "source.serviceAccount".
 Definition attr_request_principal := "request.auth.principal".
 Definition attr_request_audiences := "request.auth.audiences".
 Definition attr_request_presenter := "request.auth.presenter".
@@ -648,6 +662,46 @@ Definition request_principal_matches (v iss sub : string) : bool :=
       end
   end.
 
+(* strings.Cut(s, "/") *)
+Fixpoint cut_slash (s : string) : option (string * string) :=
+  match s with
+  | EmptyString => None
+  | String a s' =>
+      if Ascii.eqb a slash then Some (EmptyString, s')
+      else match cut_slash s' with Some (x, y) => Some (String a x, y) | None => None end
+  end.
+
+(* serviceAccounts value "<ns>/<sa>" or "<sa>" (namespace of the policy) against the peer identity *)
+Definition service_account_matches (default_ns v peer : string) : bool :=
+  let '(vns, vsa) := match cut_slash v with Some (a, b) => (a, b) | None => (default_ns, v) end in
+  match parse_peer peer with
+  | Some (_, ns, sa) => String.eqb vns ns && String.eqb vsa sa
+  | None => false
+  end.
+
+(* path templates: "{*}" = exactly one non-empty path segment, "{**}" = any non-empty sequence of
+   segments (the rest of the path when it is the last element), other segments literal *)
+Fixpoint contains_sub (sub s : string) : bool :=
+  has_prefix sub s || match s with EmptyString => false | String _ s' => contains_sub sub s' end.
+Definition contains_path_template (v : string) : bool := contains_sub "{*}" v || contains_sub "{**}" v.
+
+Fixpoint tails_match (f : list string -> bool) (ps : list string) : bool :=
+  match ps with
+  | [] => false
+  | _ :: ps' => f ps' || tails_match f ps'
+  end.
+Fixpoint segs_match (ts ps : list string) : bool :=
+  match ts with
+  | [] => is_nil ps
+  | t :: ts' =>
+      if String.eqb t "{**}" then tails_match (segs_match ts') ps
+      else match ps with
+           | [] => false
+           | p :: ps' => (if String.eqb t "{*}" then nonempty p else String.eqb t p) && segs_match ts' ps'
+           end
+  end.
+Definition template_matches (v path : string) : bool := segs_match (split_on slash v) (split_on slash path).
+
 (* does ONE value of attribute kind [k] (with key [key]) match the request *)
 Definition value_sem (k : kind) (key : string) (v : string) (r : request) : bool :=
   match k with
@@ -655,12 +709,13 @@ Definition value_sem (k : kind) (key : string) (v : string) (r : request) : bool
   | KDestPort => match convert_to_port v with Some p => N.eqb p (r_dst_port r) | None => false end
   | KConnSNI => form_matches_nonempty v (r_sni r)
   | KHost => opt_matches (form_matches true v) (header host_header r)
-  | KPath => opt_matches (form_matches_nonempty v) (r_path r)
+  | KPath => opt_matches (if contains_path_template v then template_matches v else form_matches_nonempty v) (r_path r)
   | KMethod => opt_matches (form_matches false v) (header method_header r)
   | KSrcIP => match addr_str_to_cidr v with Some c => in_cidr c (r_src_ip r) | None => false end
   | KRemoteIP => match addr_str_to_cidr v with Some c => in_cidr c (r_remote_ip r) | None => false end
   | KSrcNamespace => opt_matches (form_matches false v) (peer_namespace r)
   | KSrcPrincipal => opt_matches (form_matches false v) (r_peer r)
+  | KSrcSvcAccount d => opt_matches (service_account_matches d v) (r_peer r)
   | KReqHeader =>
       match extract_name_in_brackets (trim_prefix attr_request_header key) with
       | Some h => opt_matches (form_matches false v) (header h r)
@@ -689,9 +744,10 @@ Definition mk (k : kind) (key : string) (vs ns : list string) : cond :=
   {| ck := k; ckey := key; cvals := vs; cnots := ns |}.
 
 (* the fields of a Source / Operation as generic conditions (order irrelevant for semantics) *)
-Definition source_conds (s : source) : list cond :=
+Definition source_conds (pns : string) (s : source) : list cond :=
   [ mk KSrcPrincipal attr_src_principal (s_principals s) (s_not_principals s);
     mk KReqPrincipal attr_request_principal (s_request_principals s) (s_not_request_principals s);
+    mk (KSrcSvcAccount pns) attr_src_service_account (s_service_accounts s) (s_not_service_accounts s);
     mk KSrcNamespace attr_src_namespace (s_namespaces s) (s_not_namespaces s);
     mk KRemoteIP attr_remote_ip (s_remote_ip_blocks s) (s_not_remote_ip_blocks s);
     mk KSrcIP attr_src_ip (s_ip_blocks s) (s_not_ip_blocks s) ].
@@ -704,13 +760,14 @@ Definition operation_conds (o : operation) : list cond :=
 
 (* which attribute a `when` key names, and whether it constrains the operation (true) or the
    source (false); None = unknown attribute (rejected by validation) *)
-Definition when_kind (key : string) : option (bool * kind) :=
+Definition when_kind (pns : string) (key : string) : option (bool * kind) :=
   if String.eqb key attr_dest_ip then Some (true, KDestIP)
   else if String.eqb key attr_dest_port then Some (true, KDestPort)
   else if String.eqb key attr_conn_sni then Some (true, KConnSNI)
   else if String.eqb key attr_src_ip then Some (false, KSrcIP)
   else if String.eqb key attr_remote_ip then Some (false, KRemoteIP)
   else if String.eqb key attr_src_namespace then Some (false, KSrcNamespace)
+  else if String.eqb key attr_src_service_account then Some (false, KSrcSvcAccount pns)
   else if String.eqb key attr_src_principal then Some (false, KSrcPrincipal)
   else if String.eqb key attr_request_principal then Some (false, KReqPrincipal)
   else if String.eqb key attr_request_audiences then Some (false, KReqAudiences)
@@ -719,30 +776,30 @@ Definition when_kind (key : string) : option (bool * kind) :=
   else if has_prefix attr_request_claims key then Some (false, KReqClaim)
   else None.
 
-Definition when_cond (w : condition) : option cond :=
-  match when_kind (w_key w) with
+Definition when_cond (pns : string) (w : condition) : option cond :=
+  match when_kind pns (w_key w) with
   | Some (_, k) => Some (mk k (w_key w) (w_values w) (w_not_values w))
   | None => None
   end.
 
-Definition when_sem (w : condition) (r : request) : bool :=
-  match when_cond w with Some c => cond_sem c r | None => false end.
+Definition when_sem (pns : string) (w : condition) (r : request) : bool :=
+  match when_cond pns w with Some c => cond_sem c r | None => false end.
 
-Definition source_matches (s : source) (r : request) : bool :=
-  forallb (fun c => cond_sem c r) (source_conds s).
+Definition source_matches (pns : string) (s : source) (r : request) : bool :=
+  forallb (fun c => cond_sem c r) (source_conds pns s).
 Definition operation_matches (o : operation) (r : request) : bool :=
   forallb (fun c => cond_sem c r) (operation_conds o).
 
 (* a rule matches iff (no from or some source matches) and (no to or some operation matches)
    and every when-condition matches *)
-Definition rule_matches (ru : rule) (r : request) : bool :=
-  (is_nil (from ru) || existsb (fun s => source_matches s r) (from ru)) &&
+Definition rule_matches (pns : string) (ru : rule) (r : request) : bool :=
+  (is_nil (from ru) || existsb (fun s => source_matches pns s r) (from ru)) &&
   (is_nil (to ru) || existsb (fun o => operation_matches o r) (to ru)) &&
-  forallb (fun w => when_sem w r) (when ru).
+  forallb (fun w => when_sem pns w r) (when ru).
 
 (* a policy matches iff one of its rules does (no rules = matches nothing) *)
 Definition policy_matches (p : policy) (r : request) : bool :=
-  existsb (fun ru => rule_matches ru r) (p_rules p).
+  existsb (fun ru => rule_matches (p_ns p) ru r) (p_rules p).
 
 Definition is_action (a : action) (p : policy) : bool :=
   match a, p_action p with ALLOW, ALLOW | DENY, DENY | AUDIT, AUDIT => true | _, _ => false end.
@@ -764,7 +821,7 @@ Definition expressible (tcp : bool) (k : kind) (key : string) (v : string) : boo
   match k with
   | KDestIP | KSrcIP | KRemoteIP => match addr_str_to_cidr v with Some _ => true | None => false end
   | KDestPort => match convert_to_port v with Some _ => true | None => false end
-  | KConnSNI | KSrcNamespace | KSrcPrincipal => true
+  | KConnSNI | KSrcNamespace | KSrcPrincipal | KSrcSvcAccount _ => true
   | KHost | KPath | KMethod | KReqPrincipal | KReqAudiences | KReqPresenter => negb tcp
   | KReqHeader =>
       negb tcp && match extract_name_in_brackets (trim_prefix attr_request_header key) with Some _ => true | None => false end
@@ -788,24 +845,24 @@ Definition cond_view (tcp : bool) (c : cond) : cond :=
    - a rule with an unknown `when` attribute is not translated at all;
    - ALLOW: a rule containing any inexpressible value matches nothing;
    - DENY / AUDIT: inexpressible values are dropped and the rule is enforced on what remains. *)
-Definition rule_conds_ok (tcp : bool) (ru : rule) : bool :=
-  forallb (fun s => forallb (cond_expressible tcp) (source_conds s)) (from ru) &&
+Definition rule_conds_ok (tcp : bool) (pns : string) (ru : rule) : bool :=
+  forallb (fun s => forallb (cond_expressible tcp) (source_conds pns s)) (from ru) &&
   forallb (fun o => forallb (cond_expressible tcp) (operation_conds o)) (to ru) &&
-  forallb (fun w => match when_cond w with Some c => cond_expressible tcp c | None => false end) (when ru).
+  forallb (fun w => match when_cond pns w with Some c => cond_expressible tcp c | None => false end) (when ru).
 
-Definition when_known (ru : rule) : bool :=
-  forallb (fun w => match when_kind (w_key w) with Some _ => true | None => false end) (when ru).
+Definition when_known (pns : string) (ru : rule) : bool :=
+  forallb (fun w => match when_kind pns (w_key w) with Some _ => true | None => false end) (when ru).
 
-Definition rule_view_matches (tcp : bool) (allow : bool) (ru : rule) (r : request) : bool :=
-  if negb (when_known ru) then false
-  else if allow then rule_conds_ok tcp ru && rule_matches ru r
+Definition rule_view_matches (tcp : bool) (allow : bool) (pns : string) (ru : rule) (r : request) : bool :=
+  if negb (when_known pns ru) then false
+  else if allow then rule_conds_ok tcp pns ru && rule_matches pns ru r
   else
-    (is_nil (from ru) || existsb (fun s => forallb (fun c => cond_sem (cond_view tcp c) r) (source_conds s)) (from ru)) &&
+    (is_nil (from ru) || existsb (fun s => forallb (fun c => cond_sem (cond_view tcp c) r) (source_conds pns s)) (from ru)) &&
     (is_nil (to ru) || existsb (fun o => forallb (fun c => cond_sem (cond_view tcp c) r) (operation_conds o)) (to ru)) &&
-    forallb (fun w => match when_cond w with Some c => cond_sem (cond_view tcp c) r | None => false end) (when ru).
+    forallb (fun w => match when_cond pns w with Some c => cond_sem (cond_view tcp c) r | None => false end) (when ru).
 
 Definition policy_view_matches (tcp : bool) (p : policy) (r : request) : bool :=
-  existsb (fun ru => rule_view_matches tcp (is_action ALLOW p) ru r) (p_rules p).
+  existsb (fun ru => rule_view_matches tcp (is_action ALLOW p) (p_ns p) ru r) (p_rules p).
 
 Definition decision_view (tcp : bool) (ps : list policy) (r : request) : bool :=
   negb (existsb (fun p => policy_view_matches tcp p r) (enforced DENY ps)) &&
@@ -837,6 +894,15 @@ Definition header_matcher_ic (ic : bool) (v : string) : hmatch :=
 Definition header_matcher := header_matcher_ic false.
 Definition host_matcher := header_matcher_ic true.
 
+(* matcher/template.go sanitizePathTemplate: "{*}" -> "*", "{**}" -> "**" *)
+Fixpoint sanitize_path_template (s : string) : string :=
+  match s with
+  | String "{" (String "*" (String "}" rest)) => String "*" (sanitize_path_template rest)
+  | String "{" (String "*" (String "*" (String "}" rest))) => String "*" (String "*" (sanitize_path_template rest))
+  | String a rest => String a (sanitize_path_template rest)
+  | EmptyString => EmptyString
+  end.
+
 (* matcher.StringOrMatcher(values) (OrMatcher collapses a singleton) *)
 Definition string_or_matcher (vs : list string) : vmatch :=
   match vs with
@@ -862,7 +928,10 @@ Definition gen_perm (k : kind) (key v : string) (tcp : bool) : res perm :=
   | KDestPort => match convert_to_port v with Some p => Ok (PDestPort p) | None => Err end
   | KConnSNI => Ok (PSNI (string_matcher v))
   | KHost => if tcp then Err else Ok (PHeader host_header (host_matcher v))
-  | KPath => if tcp then Err else Ok (PUrlPath (string_matcher v))
+  | KPath =>
+      if tcp then Err
+      else if contains_path_template v then Ok (PUriTemplate (sanitize_path_template v))
+      else Ok (PUrlPath (string_matcher v))
   | KMethod => if tcp then Err else Ok (PHeader method_header (header_matcher v))
   | _ => Err  (* "unimplemented" *)
   end.
@@ -878,6 +947,13 @@ Fixpoint intersperse (sep : re) (l : list re) : list re :=
 Definition namespace_regex (v : string) : re :=
   mkseq ([re_any_star; RLit "/ns/"] ++ intersperse re_any_star (map RLit (split_on star v)) ++ [RLit "/"; re_any_star]).
 
+(* serviceAccountRegex(defaultNamespace, value):
+   spiffe://.+/ns/<ns>/(.+/|)sa/<sa>(/.+)? with ns, sa = strings.Cut(value, "/") *)
+Definition service_account_regex (default_ns v : string) : re :=
+  let '(ns, sa) := match cut_slash v with Some (a, b) => (a, b) | None => (default_ns, v) end in
+  mkseq [RLit "spiffe://"; re_any_plus; RLit "/ns/"; RLit ns; RLit "/";
+         RAlt (RSeq re_any_plus (RLit "/")) REps; RLit "sa/"; RLit sa; ROpt (RSeq (RLit "/") re_any_plus)].
+
 (* generator.principal(key, value, forTCP, useAuthenticated) *)
 Definition gen_prin (k : kind) (key v : string) (tcp use_auth : bool) : res prin :=
   match k with
@@ -885,6 +961,7 @@ Definition gen_prin (k : kind) (key v : string) (tcp use_auth : bool) : res prin
   | KRemoteIP => match addr_str_to_cidr v with Some c => Ok (IRemoteIP c) | None => Err end
   | KSrcNamespace => Ok (principal_authenticated (SRegex (namespace_regex v)) use_auth)
   | KSrcPrincipal => Ok (principal_authenticated (string_matcher_with_prefix v spiffe_prefix) use_auth)
+  | KSrcSvcAccount d => Ok (principal_authenticated (SRegex (service_account_regex d v)) use_auth)
   | KReqHeader =>
       if tcp then Err
       else match extract_name_in_brackets (trim_prefix attr_request_header key) with
@@ -1038,21 +1115,22 @@ Definition insert_front (l : list cond) (k : kind) (key : string) (vs ns : list 
   if is_nil vs && is_nil ns then l else mk k key vs ns :: l.
 
 (* the `when` loop of model.New *)
-Fixpoint new_when (ws : list condition) (bperm bprin : list cond) : option (list cond * list cond) :=
+Fixpoint new_when (pns : string) (ws : list condition) (bperm bprin : list cond) : option (list cond * list cond) :=
   match ws with
   | [] => Some (bperm, bprin)
   | w :: ws' =>
-      match when_kind (w_key w) with
+      match when_kind pns (w_key w) with
       | None => None    (* "unknown attribute" *)
-      | Some (true, k) => new_when ws' (append_last bperm k (w_key w) (w_values w) (w_not_values w)) bprin
-      | Some (false, k) => new_when ws' bperm (append_last bprin k (w_key w) (w_values w) (w_not_values w))
+      | Some (true, k) => new_when pns ws' (append_last bperm k (w_key w) (w_values w) (w_not_values w)) bprin
+      | Some (false, k) => new_when pns ws' bperm (append_last bprin k (w_key w) (w_values w) (w_not_values w))
       end
   end.
 
-Definition merge_source (base : list cond) (s : source) : list cond :=
+Definition merge_source (pns : string) (base : list cond) (s : source) : list cond :=
   let m := insert_front base KSrcIP attr_src_ip (s_ip_blocks s) (s_not_ip_blocks s) in
   let m := insert_front m KRemoteIP attr_remote_ip (s_remote_ip_blocks s) (s_not_remote_ip_blocks s) in
   let m := insert_front m KSrcNamespace attr_src_namespace (s_namespaces s) (s_not_namespaces s) in
+  let m := insert_front m (KSrcSvcAccount pns) attr_src_service_account (s_service_accounts s) (s_not_service_accounts s) in
   let m := insert_front m KReqPrincipal attr_request_principal (s_request_principals s) (s_not_request_principals s) in
   insert_front m KSrcPrincipal attr_src_principal (s_principals s) (s_not_principals s).
 
@@ -1063,11 +1141,11 @@ Definition merge_operation (base : list cond) (o : operation) : list cond :=
   insert_front m KHost host_header (o_hosts o) (o_not_hosts o).
 
 (* model.New(policyName, rule) *)
-Definition new_model (ru : rule) : option amodel :=
-  match new_when (when ru) [] [] with
+Definition new_model (pns : string) (ru : rule) : option amodel :=
+  match new_when pns (when ru) [] [] with
   | None => None
   | Some (bperm, bprin) =>
-      Some {| m_principals := if is_nil (from ru) then [bprin] else map (merge_source bprin) (from ru);
+      Some {| m_principals := if is_nil (from ru) then [bprin] else map (merge_source pns bprin) (from ru);
               m_permissions := if is_nil (to ru) then [bperm] else map (merge_operation bperm) (to ru);
               m_base_len := List.length bprin |}
   end.
@@ -1155,8 +1233,8 @@ Definition migrate_model (tds : list string) (m : amodel) : amodel :=
      m_base_len := m_base_len m |}.
 
 (* the per-rule body of Builder.build: New, MigrateTrustDomain, Generate; None = rule skipped *)
-Definition compile_rule (o : options) (allow : bool) (ru : rule) : option rpolicy :=
-  match new_model ru with
+Definition compile_rule (o : options) (allow : bool) (pns : string) (ru : rule) : option rpolicy :=
+  match new_model pns ru with
   | None => None
   | Some m =>
       match generate allow (tcp o) (negb (use_filter_state o)) (migrate_model (trust_domains o) m) with
@@ -1165,20 +1243,20 @@ Definition compile_rule (o : options) (allow : bool) (ru : rule) : option rpolic
       end
   end.
 
-Fixpoint compile_rules (o : options) (allow : bool) (pid : N) (i : N) (rs : list rule) : list ((N * N) * rpolicy) :=
+Fixpoint compile_rules (o : options) (allow : bool) (pid : N) (pns : string) (i : N) (rs : list rule) : list ((N * N) * rpolicy) :=
   match rs with
   | [] => []
   | ru :: rs' =>
-      match compile_rule o allow ru with
-      | Some p => ((pid, i), p) :: compile_rules o allow pid (i + 1) rs'
-      | None => compile_rules o allow pid (i + 1) rs'
+      match compile_rule o allow pns ru with
+      | Some p => ((pid, i), p) :: compile_rules o allow pid pns (i + 1) rs'
+      | None => compile_rules o allow pid pns (i + 1) rs'
       end
   end.
 
 (* the policies one AuthorizationPolicy contributes *)
 Definition compile_policy (o : options) (allow : bool) (p : policy) : list ((N * N) * rpolicy) :=
   if is_nil (p_rules p) then [((p_id p, 0), rbac_policy_match_never)]
-  else compile_rules o allow (p_id p) 0 (p_rules p).
+  else compile_rules o allow (p_id p) (p_ns p) 0 (p_rules p).
 
 Definition to_raction (a : action) : raction := match a with ALLOW => RAllow | DENY => RDeny | AUDIT => RLog end.
 
@@ -1210,7 +1288,8 @@ Definition alias_source (tds : list string) (s : source) : source :=
      s_request_principals := s_request_principals s; s_not_request_principals := s_not_request_principals s;
      s_namespaces := s_namespaces s; s_not_namespaces := s_not_namespaces s;
      s_ip_blocks := s_ip_blocks s; s_not_ip_blocks := s_not_ip_blocks s;
-     s_remote_ip_blocks := s_remote_ip_blocks s; s_not_remote_ip_blocks := s_not_remote_ip_blocks s |}.
+     s_remote_ip_blocks := s_remote_ip_blocks s; s_not_remote_ip_blocks := s_not_remote_ip_blocks s;
+     s_service_accounts := s_service_accounts s; s_not_service_accounts := s_not_service_accounts s |}.
 
 Definition alias_condition (tds : list string) (w : condition) : condition :=
   if String.eqb (w_key w) attr_src_principal
@@ -1221,6 +1300,6 @@ Definition alias_rule (tds : list string) (ru : rule) : rule :=
   {| from := map (alias_source tds) (from ru); to := to ru; when := map (alias_condition tds) (when ru) |}.
 
 Definition alias_policy (tds : list string) (p : policy) : policy :=
-  {| p_id := p_id p; p_action := p_action p; p_dry_run := p_dry_run p; p_rules := map (alias_rule tds) (p_rules p) |}.
+  {| p_id := p_id p; p_ns := p_ns p; p_action := p_action p; p_dry_run := p_dry_run p; p_rules := map (alias_rule tds) (p_rules p) |}.
 
 Definition alias_policies (tds : list string) (ps : list policy) : list policy := map (alias_policy tds) ps.
